@@ -5,6 +5,7 @@ N observations) and by zlib.crc32 (independent implementation) plus a table-free
 files are digested through FileInfo::new and compared with hashlib.sha1.
 """
 import hashlib, os, re, zlib
+from .. import text
 from ..core import digest, REPO
 from ..fmt import fiin, sqpack as sq
 
@@ -133,6 +134,16 @@ def shard(ctx):
         lens += [n for i, n in enumerate(bitlen) if i % ctx.nshards == ctx.index]
     if P.get("huge") and ctx.index == 0:
         lens.append((1 << 29) + rng.randrange(1, 200))      # >= 2^32 bits
+    if not P.get("small") and ctx.index == 3 % ctx.nshards:
+        # lengths at and around the integer constants of the tree's hashing code (a piece or buffer size), and twice that
+        consts = [c for c in text.tree_literals(REPO, ["fiin.rs", "sha1.rs"])[0] if 257 <= c <= (8 << 20)]
+        for c in consts[:12]:
+            lens += [c - 1, c, c + 1, 2 * c]
+        ctx.stats.classes["sha1-length:constant-of-the-tree"] += 4 * len(consts[:12])
+    # one call hashes many files: their order is shuffled so that long and short last blocks, and empty files, follow each other
+    # in every order (a hasher object reused between the files of a call must start each file clean)
+    lens = lens + [0, 0]
+    rng.shuffle(lens)
     paths = []
     datas = []
     for i, n in enumerate(lens):
